@@ -232,7 +232,8 @@ where
 
     #[inline]
     fn empty(&mut self) {
-        self.slice = &[];
+        // Keep the position, so that `offset_from` and `offset_id` remain valid.
+        self.slice = &self.slice[..0];
     }
 
     #[inline]
